@@ -313,13 +313,15 @@ def run_witness(d: Decl, extra_inputs=(), features=()):
             deps += 'arbitrary = "1"\n'
         if 'regex' in feats:
             deps += 'regex = "1"\n'
-        f.write('[package]\nname = "nutype_verif_witness"\nversion = "0.0.0"\nedition = "2021"\n\n[workspace]\n\n'
-                '[dependencies]\nnutype = { path = "%s/nutype", features = %s }\n%s' % (pipeline.REPO, json.dumps(feats), deps))
+        f.write('[package]\nname = "nutype_verif_witness_%s"\nversion = "0.0.0"\nedition = "2021"\n\n[workspace]\n\n'
+                '[dependencies]\nnutype = { path = "%s/nutype", features = %s }\n%s' % (d.id.lower(), pipeline.REPO, json.dumps(feats), deps))
     shutil.copy(os.path.join(pipeline.REPO, 'Cargo.lock'), os.path.join(crate, 'Cargo.lock'))
     with open(os.path.join(crate, 'src', 'main.rs'), 'w') as f:
         f.write(witness_crate(d, extra_inputs))
     env = dict(ENV)
-    env['CARGO_TARGET_DIR'] = os.path.join(VERIF, 'target', 'witness')
+    # one binary per declaration (unique package name) and one target dir per work dir: concurrent
+    # witness runs must never execute each other's binaries
+    env['CARGO_TARGET_DIR'] = os.path.join(pipeline.WORK, 'target_witness')
     rc, out, err, _ = sh(['cargo', 'run', '--offline', '-q'], cwd=crate, env=env, timeout=900)
     if rc != 0:
         return None, err[-3000:]
